@@ -1,4 +1,5 @@
 """C02 - template instantiation is exact, capture-free substitution (Engine F)."""
+from .. import rules_flow as RF
 from .. import rules_alias as RA
 from .. import rules_inst as RI
 from .c13 import P1_EXEMPT
@@ -40,3 +41,4 @@ def run(ctx, rep):
     # the declaration is the input of every later instantiation: rewriting it in place makes the second
     # instantiation start from the first one's result
     rep.run(RA.rule_mutate_only_fresh, ctx, rep, "S7", "gtwrap/template_instantiator", P1_EXEMPT, min_sites=20)
+    rep.run(RF.rule_locals_defined, ctx, rep, "U1", packages=("gtwrap/template_instantiator",), min_functions=3)
